@@ -139,6 +139,16 @@ func (p *Processor) ChargingDataCreate(
 	var responseBody models.ChfConvergedChargingChargingDataResponse
 	var chargingSessionId string
 
+	if chargingData.NfConsumerIdentification == nil {
+		// mandatory IE; checked before any subscriber state is created or locked
+		problemDetails := &models.ProblemDetails{
+			Status: http.StatusBadRequest,
+			Cause:  "MANDATORY_IE_MISSING",
+			Detail: "nfConsumerIdentification is missing",
+		}
+		return nil, "", problemDetails
+	}
+
 	self := chf_context.GetSelf()
 	ueId := chargingData.SubscriberIdentifier
 
